@@ -399,7 +399,11 @@ impl<'a> Trainer<'a> {
                 .labels()
                 .iter()
                 .position(|&cls| CharacterBoundary::WordBoundary as i32 == cls)
-                .unwrap(),
+                .ok_or_else(|| {
+                    VaporettoError::invalid_model(
+                        "training data must contain at least one word boundary",
+                    )
+                })?,
         )?;
 
         let bias = model.label_bias(wb_idx);
